@@ -2,9 +2,11 @@
    residuals of a 12-variable program with 53-bit dyadic coefficients are rationals with denominators of several
    thousand bits (Qplus does not reduce), far too slow on the inductive binary numbers. *)
 From Coq Require Import List ZArith QArith Qabs Extraction ExtrOcamlBasic ExtrOcamlZBigInt.
-From LN Require Import C04_Defs.
+From LN Require Import C04_Defs C04_Reduce C04_Step.
 Extraction Language OCaml.
 Extraction "extracted/c04_model.ml" dot vadd vsub vscale mv mtv sumsq msumsq vmaxc norm1 objective grad
   denom_target denom_ok normalizeP recompute model_done model_status feasible_dec converged_dec status_dec
   start_unfeasible_dec sysdim user_feasible_b phi zs4 Qltb
+  entry stack reduce_sys reduce_model assemble lu_valid_b perm_b shape_b pmq_entry lu_entry inner_dim sat_b
+  make_smax step_len step_point all_pos_b
   Qred Qplus Qminus Qmult Qdiv Qopp Qabs.Qabs Qle_bool Qeq_bool inject_Z.
